@@ -271,6 +271,7 @@ def endpoint_switch(first: int, second: int) -> bool:
     grpc1, grpc2 = _DEPLOY['ram_keep']
     endpoints = [constants.NO_ENDPOINT, grpc1.endpoint, grpc2.endpoint]
     env = clients.environment_variables
+    env.servicer_use_sql_ram()        # the documented test knob: the cached local servicer must not write vizier.db into the tree
     saved = env.server_endpoint
     sid = 'sw%d_%d' % (os.getpid(), next(_COUNTER))
     try:
